@@ -10,7 +10,7 @@ from ..pathinterp import PathInterp, NZ
 
 LS = 'cherab/core/model/lineshape/'
 FILES = [LS + 'gaussian.pyx', LS + 'multiplet.pyx', LS + 'zeeman.pyx', LS + 'stark.pyx', LS + 'doppler.pyx', LS + 'beam/mse.pyx',
-         'cherab/core/atomic/zeeman.pyx']
+         'cherab/core/atomic/zeeman.pyx', 'cherab/core/math/integrators/integrators1d.pyx']
 SINKS = ('add_gaussian_line', 'add_lorentzian_line')
 PI, SIGMA, NO = 0, 1, 2
 POLNAME = {PI: 'pi', SIGMA: 'sigma', NO: 'no'}
@@ -81,6 +81,7 @@ def check(run):
     _r2(run, results)
     _r3(run, results, classes)
     _r45(run, gmod, smod)
+    _r6(run, prog)
 
 
 def _helpers(prog, ci):
@@ -257,6 +258,15 @@ def _r3(run, results, classes):
                     else:
                         run.undecided('C02-R3', tag, notes)
                     continue
+                # a component that carries a share of the radiance must be given a width: the primitives add nothing for width 0
+                for sname, sargs, stags, snode in path.sinks:
+                    if len(sargs) >= 3 and sargs[2].is_const() and sargs[2].const_value() == 0 \
+                            and not (sargs[0].is_const() and sargs[0].const_value() == 0):
+                        run.subject('C02-R3')
+                        run.fail('C02-R3', K + 'zero-width-share|%s' % sname, ci.mod.relpath, snode.lineno,
+                                 "%s: %s is given the share %s of the radiance but a width that is identically zero on the path %s: the "
+                                 "primitive returns at once and that share of the line is lost"
+                                 % (tag, sname, sargs[0].key()[:60], {k: v for k, v in path.decisions}))
                 # cos^2 leaf of this path (if any)
                 cosl = [l for l in tot.leaves() if '.dot(' in l]
                 cos2 = None
@@ -373,6 +383,109 @@ class PrimEval(SymEval):
                 return self.ev(n.args[1])
             return L('%s(%s)' % (f, ', '.join(self.ev(a).key() for a in n.args)))
         return super().call(n)
+
+
+def _r6(run, prog):
+    """The quadrature table used for the Stark profile is rebuilt whenever its order range changes."""
+    from ..effects import Effects, self_chain
+    run.describe('C02-R6', 'GaussianQuadrature: every setter writing a field the node/weight table is built from rebuilds the table, for every change')
+    ci = [c for c in prog.classes.values() if c.name == 'GaussianQuadrature']
+    if not ci:
+        raise AnalysisError('anchored class vanished: GaussianQuadrature')
+    ci = ci[0]
+    eff = Effects(prog)
+    builder = ci.methods.get('_build_cache')
+    if builder is None:
+        raise AnalysisError('anchored method vanished: GaussianQuadrature._build_cache')
+    srcs = {r for r in eff.closure(ci, builder).reads if '.' not in r} - set(eff.closure(ci, builder).writes)
+    n = 0
+    for name, fn in sorted(ci.setters.items()):
+        w = [f for f in eff.summary(fn).writes if f in srcs]
+        if not w:
+            continue
+        n += 1
+        run.subject('C02-R6')
+        wl = max(st.lineno for f in w for st in eff.summary(fn).writes[f])
+        calls = [c for c in ast.walk(fn) if isinstance(c, ast.Call) and dotted(c.func) == 'self._build_cache' and c.lineno > wl]
+        K = '%s|GaussianQuadrature|setter:%s|' % (ci.mod.name, name)
+        if not calls:
+            run.fail('C02-R6', K + 'no-rebuild', ci.mod.relpath, fn.lineno,
+                     'GaussianQuadrature.%s writes %s but does not rebuild the node/weight table: evaluate() reads nodes of the wrong orders' % (name, w))
+            continue
+        g = [(e, pol) for e, pol in (guards_of(fn, calls[0]) or []) if pol != 'in-loop']
+        # guards that are merely the setter's validation (early raise) carry polarity False on an exiting test; keep the others
+        cond = [(e, pol) for e, pol in g if not _is_validation(fn, e)]
+        # a test stored in a local before the write compares the new value with the old field
+        resolved = []
+        for e, pol in cond:
+            if isinstance(e, ast.Name):
+                ds = [(v, st) for t, v, st in _stores(fn) if isinstance(t, ast.Name) and t.id == e.id]
+                if len(ds) == 1 and ds[0][1].lineno < min(st.lineno for f in w for st in eff.summary(fn).writes[f]):
+                    resolved.append((ds[0][0], pol, True))
+                    continue
+            resolved.append((e, pol, e.lineno < min(st.lineno for f in w for st in eff.summary(fn).writes[f])))
+        if not cond:
+            run.ok('C02-R6', 'GaussianQuadrature.%s' % name, 'writes %s, then _build_cache() unconditionally' % w)
+        elif all(_is_changed_test(e, pol, w) and before for e, pol, before in resolved):
+            run.ok('C02-R6', 'GaussianQuadrature.%s' % name, 'rebuilds whenever the value changes')
+        elif all(before and _is_growth_test(e, pol, w, fn) and set(w) <= _extent_only(builder) for e, pol, before in resolved):
+            run.ok('C02-R6', 'GaussianQuadrature.%s' % name, 'rebuilds whenever the table has to grow (%s only bounds the table from above)' % w)
+        else:
+            cond = [(e, pol) for e, pol, b in resolved]
+            run.fail('C02-R6', K + 'conditional-rebuild', ci.mod.relpath, calls[0].lineno,
+                     'GaussianQuadrature.%s rebuilds the node/weight table only when %s: evaluate() walks the table from the current '
+                     'min_order, so after the other changes it reads nodes and weights of the wrong orders'
+                     % (name, ' and '.join(('' if pol else 'not ') + norm(e) for e, pol in cond)))
+    if n < 2:
+        raise AnalysisError('GaussianQuadrature: expected min_order and max_order setters feeding _build_cache, found %d' % n)
+
+
+def _stores(fn):
+    from ..flow import stores
+    return stores(fn)
+
+
+def _extent_only(builder):
+    """Fields that only bound the table from above: they occur in the stop of the builder's range() loops and never in a start."""
+    from ..effects import self_chain
+    starts, stops = set(), set()
+    for lp in ast.walk(builder):
+        if isinstance(lp, ast.For) and isinstance(lp.iter, ast.Call) and dotted(lp.iter.func) == 'range':
+            a = lp.iter.args
+            st, sp = (a[0], a[1]) if len(a) >= 2 else (None, a[0])
+            for tgt, e in ((starts, st), (stops, sp)):
+                if e is not None:
+                    for x in ast.walk(e):
+                        if isinstance(x, ast.Attribute) and self_chain(x):
+                            tgt.add(self_chain(x))
+    return stops - starts
+
+
+def _is_growth_test(e, pol, fields, fn):
+    from ..calls import params_of
+    ps = params_of(fn)[1:]
+    if isinstance(e, ast.Compare) and len(e.ops) == 1 and pol and ps:
+        l, r, op = norm(e.left), norm(e.comparators[0]), type(e.ops[0])
+        for f in fields:
+            if (l, r) == (ps[0], 'self.' + f) and op in (ast.Gt, ast.NotEq):
+                return True
+            if (l, r) == ('self.' + f, ps[0]) and op in (ast.Lt, ast.NotEq):
+                return True
+    return False
+
+
+def _is_validation(fn, test):
+    for st in ast.walk(fn):
+        if isinstance(st, ast.If) and st.test is test:
+            return all(isinstance(x, ast.Raise) for x in st.body)
+    return False
+
+
+def _is_changed_test(e, pol, fields):
+    if isinstance(e, ast.Compare) and len(e.ops) == 1 and isinstance(e.ops[0], ast.NotEq) and pol:
+        sides = {norm(e.left), norm(e.comparators[0])}
+        return any('self.' + f in sides for f in fields)
+    return False
 
 
 def _r45(run, gmod, smod):
@@ -518,7 +631,19 @@ _S = LS + 'stark.pyx'
 _M = LS + 'beam/mse.pyx'
 _MU = LS + 'multiplet.pyx'
 _AZ = 'cherab/core/atomic/zeeman.pyx'
+_GQ = 'cherab/core/math/integrators/integrators1d.pyx'
 MUTANTS = [
+    dict(name='stark-sigma-from-zeroed-width', edits=[
+        dict(file=LS + 'stark.pyx', find="        sigma = fwhm_full / _SIGMA2FWHM\n\n        fwhm_lorentz_to_total", replace="        fwhm_lorentz_to_total"),
+        dict(file=LS + 'stark.pyx', find="        gauss_weight = 1 - lorentz_weight\n", replace="        gauss_weight = 1 - lorentz_weight\n        sigma = fwhm_full / _SIGMA2FWHM\n")],
+        expect='C02-R3'),
+    dict(name='multiplet-skips-components-outside-window', file=LS + 'multiplet.pyx',
+         find="            spectrum = add_gaussian_line(component_radiance, shifted_wavelength, sigma, spectrum)",
+         replace="            if shifted_wavelength < spectrum.min_wavelength or shifted_wavelength > spectrum.max_wavelength:\n                continue\n"
+                 "            spectrum = add_gaussian_line(component_radiance, shifted_wavelength, sigma, spectrum)", expect='C02-R3'),
+    dict(name='quadrature-min-order-lazy-rebuild', file=_GQ, find="        self._min_order = value\n\n        self._build_cache()",
+         replace="        rebuild = value < self._min_order\n        self._min_order = value\n\n        if rebuild:\n            self._build_cache()", expect='C02-R6'),
+    dict(name='quadrature-max-order-no-rebuild', file=_GQ, find="        self._max_order = value\n\n        self._build_cache()", replace="        self._max_order = value", expect='C02-R6'),
     dict(name='sigma-weight-quarter-to-half', file=_Z, find="component_radiance = (0.25 * sin_sqr + 0.5 * cos_sqr) * radiance", replace="component_radiance = (0.5 * sin_sqr + 0.5 * cos_sqr) * radiance", occurrence=0, of=3, expect='C02-R3'),
     dict(name='polarisation-guards-swapped', file=_Z, find="        if self._polarisation != SIGMA_POLARISATION:\n            component_radiance = 0.5 * sin_sqr * radiance\n            spectrum = add_gaussian_line(component_radiance, shifted_wavelength, sigma, spectrum)",
          replace="        if self._polarisation != PI_POLARISATION:\n            component_radiance = 0.5 * sin_sqr * radiance\n            spectrum = add_gaussian_line(component_radiance, shifted_wavelength, sigma, spectrum)", occurrence=0, of=2, expect='C02-R'),
@@ -537,6 +662,8 @@ MUTANTS = [
     dict(name='mse-sigma1-share', file=_M, find="intensity_s1 = 0.5 * s1_to_s0 * intensity_s0", replace="intensity_s1 = s1_to_s0 * intensity_s0", expect='C02-R3'),
 ]
 TWINS = [
+    dict(name='quadrature-max-order-rebuild-on-growth', file=_GQ, find="        self._max_order = value\n\n        self._build_cache()",
+         replace="        rebuild = value > self._max_order\n        self._max_order = value\n\n        if rebuild:\n            self._build_cache()"),
     dict(name='temporary-introduced', file=_Z, find="            component_radiance = 0.5 * sin_sqr * radiance\n", replace="            half_sin = sin_sqr * 0.5\n            component_radiance = radiance * half_sin\n", occurrence=0, of=3),
     dict(name='gaussian-value-reordered', file=_G, find="radiance * 0.5 * (upper_integral - lower_integral) / spectrum.delta_wavelength", replace="0.5 * (upper_integral - lower_integral) * radiance / spectrum.delta_wavelength"),
 ]
